@@ -80,6 +80,10 @@ def sess_transpose(seed, core=True, ncalls=12, rows=12):
             ev['src_after'] = res_of(lambda: kp.dumps(src))
             ev['snap'] = session.snapshot(src)
             if ev['res']['ok']:
+                if core:
+                    # the transposed document is a document like any other: its agnostic export is that of the transposed notes
+                    # (taken BEFORE the way back: transposing the result again rewrites it too - finding D14)
+                    ev['res_agn'] = res_of(lambda: kp.dumps(state['t'], encoding=kp.Encoding.agnosticExtendedKern))
                 ev['back'] = res_of(lambda: kp.dumps(state['t'].to_transposed(iv, fresh('down' if up else 'up'))))
             else:
                 ev['back'] = {'ok': False, 'grid': [], 'exc': ''}
